@@ -51,8 +51,8 @@ def _conv_text(s):
     c, cust = s["conv"], s.get("cust", "")
     if cust in ("bool", "boolm"):
         return "bool(maybe=True)" if cust == "boolm" else "bool"
-    if cust == "wiki":
-        return "wiki"
+    if cust in ("wiki", "wiki2"):
+        return cust
     if cust == "code":
         return f"code({s['n']})"
     if cust == "dflt":
@@ -171,7 +171,7 @@ def universe():
         xrule([S()], rto=tpl("str", "t/", ("v", "s"))),                           # 16
         xrule([S()], rto=tpl("fn", "f/", ("v", "s"))),                            # 17
         xrule([S()], methods=["POST"], rto=tpl("str", "t/", ("v", "s"))),         # 18
-        xrule([V("int", "n", n=2)], rto=tpl("str", "/r/", ("v", "n"))),           # 19
+        xrule([V("int", "n", n=3)], rto=tpl("str", "/r/", ("v", "n"))),           # 19
         xrule([L("a")], branch=True, rto=tpl("str", "t/")),                       # 20
         xrule([L("a")], host=hx),                                                 # 21
         xrule([L("a")], host=gx),                                                 # 22
@@ -239,7 +239,12 @@ def custom_converters():
             super().__init__(url_map)
             self.regex = "[^/]{%d}" % int(n)
 
-    return {"bool": BooleanConverter, "wiki": WikiConverter, "code": CodeConverter}
+    class Wiki2Converter(BaseConverter):
+        # BaseConverter: "part_isolating defaults to False if regex contains a /"
+        regex = "[^/].*?"
+        weight = 200
+
+    return {"bool": BooleanConverter, "wiki": WikiConverter, "wiki2": Wiki2Converter, "code": CodeConverter}
 
 
 def _fn(idx, template, log):
@@ -584,7 +589,7 @@ def custom_seg(rng, idx):
         return xvar("int", name, **({"lo": rng.choice([1, 8, 100])} if rng.random() < 0.5 else {"hi": rng.choice([0, 7, 12])}))
     if k == "fmm":
         return xvar("float", name, lo=1500, hi=2500, signed=rng.random() < 0.5)
-    return xvar("path", name, cust="wiki")
+    return xvar("path", name, cust=rng.choice(["wiki", "wiki2"]))
 
 
 def extra_tokens(rules):
